@@ -29,8 +29,11 @@ UniqueLimbs ==
 
 ASSUME \A op \in SpanOps : \A rg \in Regimes : Exercised(op, rg)
 ASSUME UniqueLimbs
+\* vacuity guard: the operations documented with a binary / fixed operand are found by the derivation
+ASSUME /\ Pinned("NOT") = {0} /\ Pinned("AND") = {0, 1} /\ Pinned("OR") = {0, 1} /\ Pinned("CSWAP") = {0} /\ Pinned("CSWAPW") = {0}
+       /\ Pinned("ASSERT") = {0} /\ Pinned("ADD") = {} /\ Pinned("SWAP") = {}
 ASSUME PrintT(ToJson([tag |-> "enforced",
-                      ops |-> [op \in SpanOps |-> [rg \in Regimes |-> Enforced(op, rg) \cup HelperCells(op)]],
+                      ops |-> [op \in SpanOps |-> [rg \in Regimes |-> Enforced(op, rg) \cup HelperCells(op) \cup PinnedCells(op)]],
                       ctl |-> [row \in CtlRows |-> [rg \in Regimes |-> CtlEnforced(row, rg)]],
                       chip |-> ChipEnforced]))
 VARIABLE x
